@@ -35,6 +35,9 @@ FAILING = [
     # rejected only AFTER the forward pass has run (integer result forced non-constant)
     ("int-forced-variable", "mg.add(IT, IT, constant=False)"),
     ("int-view-forced-variable", "mg.multiply(IT[:2], 2, constant=False)"),
+    # a Python scalar that does not fit the (small integer) dtype of the other operands (NumPy raises OverflowError)
+    ("scalar-overflow", "IT8 + 300"),
+    ("scalar-overflow-view", "IT8[:2] * 1000"),
 ]
 # in-place statements that must fail when the memory they would write to is natively read-only
 RO_FAILING = [
@@ -127,6 +130,7 @@ def run_item(mg, base, prog, pos, fname, res, ro=False):
         ro_arr.flags.writeable = False
         T["RO"] = mg.Tensor(ro_arr, copy=False, constant=False)
         T["IT"] = mg.Tensor(np.array([1, 2, 3]))
+        T["IT8"] = mg.Tensor(np.array([1, 2, 3], dtype=np.uint8))
         raised = None
         snap_after = None
         for i, ln in enumerate(prog):
@@ -149,7 +153,7 @@ def run_item(mg, base, prog, pos, fname, res, ro=False):
         grads = {n: (None if T[n].grad is None else terms_of(T[n].grad)) for n in vp.TENSOR_NAMES + C05.LEAVES
                  if n in T and isinstance(T[n], mg.Tensor)}
         final = snapshot(T, mg)
-        ro_ok = (not T["RO"].data.flags.writeable) and bool(T["IT"].data.flags.writeable)
+        ro_ok = (not T["RO"].data.flags.writeable) and bool(T["IT"].data.flags.writeable) and bool(T["IT8"].data.flags.writeable)
         return dict(raised=raised, snap=snap_after, Lterms=Lterms, grads=grads, final=final, ro_ok=ro_ok)
 
     def body():
@@ -229,7 +233,7 @@ def run(fail):
          "BAD7": np.ones(7), "BAD7T": np.ones(7), "BADMASK": np.ones(7, dtype=bool)}
     ro = np.array([1.0, 2.0]); ro.flags.writeable = False
     T["RO"] = mg.Tensor(ro, copy=False)
-    T["IT"] = mg.Tensor(np.array([1, 2, 3]))
+    T["IT"] = mg.Tensor(np.array([1, 2, 3])); T["IT8"] = mg.Tensor(np.array([1, 2, 3], dtype=np.uint8))
     raised = []; s1 = None
     for i, ln in enumerate(PROG):
         if i == POS:
@@ -243,7 +247,7 @@ def run(fail):
         exec(ln, T)
     T["L"].backward()
     g = {n: (None if T[n].grad is None else T[n].grad.tolist()) for n in TN if n in T and isinstance(T[n], mg.Tensor)}
-    return raised, s1, snap(T), float(np.sum(T["L"].data)), g, T["RO"].data.flags.writeable or not T["IT"].data.flags.writeable
+    return raised, s1, snap(T), float(np.sum(T["L"].data)), g, T["RO"].data.flags.writeable or not T["IT"].data.flags.writeable or not T["IT8"].data.flags.writeable
 ra, a1, a2, La, ga, roa = run(True)
 for k_ in list(lm._array_counter): pass
 lm._array_counter.clear(); lm._array_tracker.clear(); lm._views_waiting_for_unlock.clear()
